@@ -8,7 +8,7 @@ from mirlib import w64_to_int, int_to_hex_le, hex_le_to_int, s64, fp_bits, is_na
 
 PROP = "C02"
 OLD = 0x56781234abcdcdef   # must equal OldSlot in C02Table.tla  (<<52719, 43981, 4660, 22136>>)
-BUF = 96
+BUF = 320
 A, B, R, FL, X, Y, FR = 0, 8, 16, 24, 32, 48, 64
 S_OPS = {'adds', 'subs', 'muls', 'divs', 'udivs', 'mods', 'umods', 'ands', 'ors', 'xors', 'lshs', 'rshs', 'urshs',
          'eqs', 'nes', 'lts', 'ults', 'les', 'ules', 'gts', 'ugts', 'ges', 'uges', 'addos', 'subos', 'mulos', 'umulos', 'negs'}
@@ -52,8 +52,14 @@ class Plan:
         return "m: module\n export " + ", ".join(self.funcs) + "\n" + "".join(self.funcs.values()) + " endmodule\n"
 
 
+BIDS = (128, 200, 248, 256)       # displacements used together with base + index*8 (disp8/disp32 boundary of x86 addressing)
+
+
 def mkbuf(a=0, b=0, x=None, y=None, fmt=None):
     buf = bytearray(b"\xc3" * BUF)
+    for d in BIDS:
+        buf[d + 8:d + 16] = a.to_bytes(8, "little")       # operand a again, reachable as i64:d(buf, one, 8)
+    buf[304:312] = (1).to_bytes(8, "little")              # a run-time index value (not foldable)
     buf[A:A + 8] = a.to_bytes(8, "little")
     buf[B:B + 8] = b.to_bytes(8, "little")
     buf[R:R + 8] = OLD.to_bytes(8, "little")
@@ -90,6 +96,8 @@ def int_shapes(op, a, b, tier, unary):
     yield "d1", (o, "d1"), LOADAB + " %s a, a, b\n mov i64:16(buf), a\n" % o
     yield "d2", (o, "d2"), LOADAB + " %s b, a, b\n mov i64:16(buf), b\n" % o
     yield "ri", (o, "ri", b), LOADAB + " %s r, a, %s\n" % (o, imm(b)) + STORER
+    for d in (BIDS if tier == "thorough" else BIDS[0:1] + BIDS[2:3]):
+        yield "bid%d" % d, (o, "bid", d), LOADAB + " mov one, i64:304(buf)\n %s r, i64:%d(buf, one, 8), b\n" % (o, d) + STORER
     if op in S_OPS:
         yield "s32", (o, "s32"), " %s r, i32:0(buf), u32:8(buf)\n" % o + STORER
     if a == b:
@@ -179,6 +187,10 @@ def build_plan(rows, tier):
                 P.call(P.func((fmt, op, "rm"), ldxy + " %s%s r, x, %s:48(buf)\n" % (pf, op, fmt) + STORER, locs), mkbuf(0, 0, xb, yb, fmt), e, row, "rm")
                 body = ldxy + " %sb%s L1, x, y\n mov fl, 0\n jmp L2\nL1:\n mov fl, 1\nL2:\n mov i64:24(buf), fl\n" % (pf, op)
                 P.call(P.func((fmt, "b" + op, "rr"), body, locs), mkbuf(0, 0, xb, yb, fmt), {"fl": int(row["t"])}, row, "br")
+                # comparison result consumed by bt / bf (the generator fuses the pair into one compare-and-branch)
+                for br, taken in (("bt", row["t"]), ("bf", not row["t"])):
+                    body = ldxy + " %s%s r, x, y\n %s L1, r\n mov fl, 0\n jmp L2\nL1:\n mov fl, 1\nL2:\n mov i64:24(buf), fl\n" % (pf, op, br)
+                    P.call(P.func((fmt, op, br), body, locs), mkbuf(0, 0, xb, yb, fmt), {"fl": int(taken)}, row, "cmp+" + br)
                 continue
             fr = row["fr"]
             insn = pf + row["op"]
